@@ -60,7 +60,8 @@ pub fn orswot_reads(s: &OS) -> String {
     out += &format!(" iter=[{}]", parts.join(";"));
     // `ReadCtx::split` keeps both clocks; `Orswot::clock()` is the set clock
     let (_, sp) = s.read().split();
-    out += &format!(" split={}/{} clk={}", clock(&sp.add_clock), clock(&sp.rm_clock), clock(&s.clock()));
+    let (_, sp0) = s.contains(&0).split();
+    out += &format!(" split={}/{} split0={}/{} clk={}", clock(&sp.add_clock), clock(&sp.rm_clock), clock(&sp0.add_clock), clock(&sp0.rm_clock), clock(&s.clock()));
     out
 }
 
